@@ -1,0 +1,19 @@
+//go:build verif
+
+package udp
+
+import "github.com/postalsys/muti-metroo/internal/crypto"
+
+// VerifSessionKeys returns the key bytes of every session key this handler
+// currently holds.
+func (h *Handler) VerifSessionKeys() [][crypto.KeySize]byte {
+	h.mu.RLock()
+	defer h.mu.RUnlock()
+	var out [][crypto.KeySize]byte
+	for _, a := range h.associations {
+		if k := a.GetSessionKey(); k != nil {
+			out = append(out, k.VerifKeyBytes())
+		}
+	}
+	return out
+}
